@@ -173,14 +173,23 @@ def f6_files(tier):
     paths = [A, B]
     chunk_opts = (1, 2, 3)
     endians = (False, True)
+    elem_sets = dict(F6_ELEMS)
+    if tier == 'thorough':
+        # every ordered pair of representative types, and a three-channel set
+        for ta in R8:
+            for tb in R8:
+                elem_sets.setdefault('%s+%s' % (ta, tb), [(ta, 2), (tb, 3)])
+        elem_sets['i8+str+f64'] = [('Int8', 3), ('String', 2), ('DoubleFloat', 1)]
+        elem_sets['ts+i16+c64'] = [('TimeStamp', 1), ('Int16', 3), ('ComplexSingleFloat', 2)]
     for big in endians:
-        for ename, elems in F6_ELEMS.items():
+        for ename, elems in elem_sets.items():
             if big and tier == 'quick' and ename not in ('f32+ts', 'str+i32'):
                 continue
+            paths = [A, B, C][:max(2, len(elems))]
             objs = [(paths[i], _f6_enc(t, n)) for i, (t, n) in enumerate(elems)]
             objs2 = [(paths[i], _f6_enc(t, n + 1)) for i, (t, n) in enumerate(elems)]
             sized = all(t != 'String' for t, _ in elems)
-            layouts = ['contiguous'] + (['interleaved'] if (sized or ename == 'str') else [])
+            layouts = ['contiguous'] + (['interleaved'] if (sized or (len(elems) == 1 and elems[0][0] == 'String')) else [])
             for layout in layouts:
                 il = layout == 'interleaved'
                 if il:
